@@ -21,6 +21,15 @@ type PathQuery struct {
 	G    *cfg.CFG
 	// Prune: do not follow the (cond, branch) edge when it returns true.
 	Prune func(cond ast.Expr, takeTrue bool) bool
+	// StopBlock: paths end (count as having passed `via`) when they enter such a block.
+	StopBlock func(b *cfg.Block) bool
+}
+
+// loopHead matches the head block of the given range/for statement (entered at every iteration).
+func loopHead(loop ast.Stmt) func(b *cfg.Block) bool {
+	return func(b *cfg.Block) bool {
+		return b.Stmt == loop && (b.Kind == cfg.KindRangeLoop || b.Kind == cfg.KindForLoop)
+	}
 }
 
 func NewPathQuery(p *Prog, fn *FuncInfo, body *ast.BlockStmt) *PathQuery {
@@ -117,6 +126,9 @@ func (q *PathQuery) Escapes(from, to, via nodePred, exitOK func(ret *ast.ReturnS
 			continue
 		}
 		seen[ref] = true
+		if q.StopBlock != nil && s.i == 0 && q.StopBlock(s.b) {
+			continue
+		}
 		blocked := false
 		link := s.prev
 		for i := s.i; i < len(s.b.Nodes); i++ {
